@@ -35,7 +35,7 @@ type c03Action struct {
 	B    int `json:"b"`
 }
 
-var c03Kinds = []string{"drop", "duplicate", "hold", "flip-copy", "truncate-copy", "extend-copy", "reflect-copy", "cross-session-copy", "forged", "flip-in-flight"}
+var c03Kinds = []string{"drop", "duplicate", "hold", "flip-copy", "truncate-copy", "extend-copy", "reflect-copy", "cross-session-copy", "forged", "flip-in-flight", "late-duplicate"}
 
 type c03Case struct {
 	Hidden   bool          `json:"hidden"`
@@ -43,6 +43,7 @@ type c03Case struct {
 	CliW     [][]c03Write  `json:"cliWriters"` // concurrent writers on the client
 	SrvW     [][]c03Write  `json:"srvWriters"`
 	Script   []c03Action   `json:"script"`
+	Fam      int           `json:"fam,omitempty"` // address family of the fixture addresses (simnet.Family)
 }
 
 const c03Hdr = 24
@@ -195,6 +196,12 @@ func c03Scenario(c c03Case, v *vlib.Verdict) {
 				}
 			case 2:
 				deliverOrig = false
+				amu.Lock()
+				held = append(held, heldT{d: clone(), release: k + 1 + a.A, dir: dir})
+				amu.Unlock()
+			case 10:
+				// the original is delivered now, a verbatim copy again after a.A further datagrams of this direction
+				// (replay at a distance: inside, at the edge of, or beyond the replay window)
 				amu.Lock()
 				held = append(held, heldT{d: clone(), release: k + 1 + a.A, dir: dir})
 				amu.Unlock()
@@ -543,6 +550,12 @@ func c03Scenario(c c03Case, v *vlib.Verdict) {
 	if len(c.CliW) > 1 || len(c.SrvW) > 1 {
 		v.Label("concurrent-writers")
 	}
+	for _, ws := range append(append([][]c03Write{}, c.CliW...), c.SrvW...) {
+		if len(ws) > 64 {
+			v.Label("stream-longer-than-one-window-block")
+			break
+		}
+	}
 	if h2 != nil {
 		h2.Close()
 	}
@@ -550,6 +563,8 @@ func c03Scenario(c c03Case, v *vlib.Verdict) {
 
 func c03Run(t *testing.T) func(c c03Case, v *vlib.Verdict) {
 	return func(c c03Case, v *vlib.Verdict) {
+		defer vSetFamily(vSetFamily(c.Fam))
+		v.Label("addresses:" + vFamilyNames[c.Fam%3])
 		res := vlib.Bubble(t, 90*time.Second, func() { c03Scenario(c, v) })
 		if res.Hung {
 			v.Inconclusive = "bubble hung in real time (C03)"
@@ -569,6 +584,7 @@ var c03Sizes = []int{c03Hdr, c03Hdr + 1, 100, 1000, MaxPlaintextSize - 1, MaxPla
 
 func c03Gen(t *rapid.T) c03Case {
 	c := c03Case{Hidden: rapid.Bool().Draw(t, "hidden"), Two: rapid.Bool().Draw(t, "two")}
+	c.Fam = rapid.SampledFrom([]int{0, 0, 0, 1, 2}).Draw(t, "fam")
 	writers := func(label string) [][]c03Write {
 		n := rapid.SampledFrom([]int{1, 1, 1, 2, 3}).Draw(t, label+"n")
 		out := make([][]c03Write, n)
@@ -587,6 +603,33 @@ func c03Gen(t *rapid.T) c03Case {
 		return out
 	}
 	c.CliW, c.SrvW = writers("cli"), writers("srv")
+	if rapid.IntRange(0, 4).Draw(t, "long") == 0 {
+		// long stream: one writer per side sends many small messages, the script replays datagrams at a distance
+		stream := func(label string) ([][]c03Write, int) {
+			n := rapid.SampledFrom([]int{3, 40, 66, 70, 130, 200, 450, 520, 700}).Draw(t, label+"len")
+			ws := make([]c03Write, n)
+			sd := rapid.Uint64().Draw(t, label+"seed")
+			for i := range ws {
+				ws[i] = c03Write{Msg: true, Size: c03Hdr + i%3, Seed: sd + uint64(i)}
+			}
+			return [][]c03Write{ws}, n
+		}
+		var nc, ns int
+		c.CliW, nc = stream("cli")
+		c.SrvW, ns = stream("srv")
+		c.Script = rapid.SliceOfN(rapid.Custom(func(t *rapid.T) c03Action {
+			a := c03Action{Dir: rapid.IntRange(0, 1).Draw(t, "dir")}
+			n := nc
+			if a.Dir == 1 {
+				n = ns
+			}
+			a.Idx = rapid.IntRange(0, n-1).Draw(t, "idx")
+			a.Kind = rapid.SampledFrom([]int{10, 10, 10, 10, 2, 1}).Draw(t, "kind")
+			a.A = rapid.OneOf(rapid.IntRange(0, 700), rapid.SampledFrom([]int{0, 1, 62, 63, 64, 65, 127, 128, 129, 300, 446, 447, 448, 449, 450, 511, 512, 513})).Draw(t, "a")
+			return a
+		}), 1, 8).Draw(t, "script")
+		return c
+	}
 	if rapid.IntRange(0, 3).Draw(t, "faithful") != 0 {
 		c.Script = rapid.SliceOfN(rapid.Custom(func(t *rapid.T) c03Action {
 			a := c03Action{Dir: rapid.IntRange(0, 1).Draw(t, "dir"), Idx: rapid.IntRange(0, 14).Draw(t, "idx")}
